@@ -11,7 +11,10 @@ use std::collections::HashMap;
 #[derive(Serialize, Deserialize)]
 pub struct RewriteData {
   pub fixed: String,
-  // maybe we should have fixed range
+  /// The range replaced by `fixed`. It differs from the diagnostic's range when the fix
+  /// has expandStart/expandEnd or the matched prefix is shorter than the node.
+  #[serde(default)]
+  pub range: Option<Range>,
 }
 
 impl RewriteData {
@@ -24,9 +27,29 @@ impl RewriteData {
     rule: &RuleConfig<L>,
   ) -> Option<Self> {
     let fixer = rule.matcher.fixer.as_ref()?;
-    let edit = node_match.replace_by(fixer);
+    // the same edit as the one `sg scan` reports and applies
+    let edit = node_match.make_edit(&rule.matcher, fixer);
+    let source = node_match.root().get_text();
+    let range = Range {
+      start: offset_to_position(source, edit.position),
+      end: offset_to_position(source, edit.position + edit.deleted_length),
+    };
     let rewrite = String::from_utf8(edit.inserted_text).ok()?;
-    Some(Self { fixed: rewrite })
+    Some(Self {
+      fixed: rewrite,
+      range: Some(range),
+    })
+  }
+}
+
+/// zero-based line and character column of a byte offset
+fn offset_to_position(source: &str, offset: usize) -> Position {
+  let before = &source[..offset.min(source.len())];
+  let line = before.matches('\n').count();
+  let line_start = before.rfind('\n').map(|i| i + 1).unwrap_or(0);
+  Position {
+    line: line as u32,
+    character: before[line_start..].chars().count() as u32,
   }
 }
 
@@ -36,7 +59,8 @@ pub fn diagnostic_to_code_action(
 ) -> Option<CodeAction> {
   let rewrite_data = RewriteData::from_value(diagnostic.data?)?;
   let mut changes = HashMap::new();
-  let text_edit = TextEdit::new(diagnostic.range, rewrite_data.fixed);
+  let range = rewrite_data.range.unwrap_or(diagnostic.range);
+  let text_edit = TextEdit::new(range, rewrite_data.fixed);
   changes.insert(text_doc.uri.clone(), vec![text_edit]);
 
   let edit = WorkspaceEdit::new(changes);
